@@ -33,6 +33,8 @@ ASSUMPTIONS = [
     "before final_setup an input has no storage of its own apart from its source: recorded inputs are then compared only for cases "
     "recorded in a consistent state (whole model just solved), with tolerance 1e-9*(1+|v|) (an input inside the coupled pair lags "
     "its source by the solver tolerance)",
+    "an input fed by an _auto_ivc output is the same variable as that output for load_case: when a case holds different values for "
+    "the two (recorded between set_val and the next run, or stale in an optimizer run) the input is not compared",
     "re-run clause: only cases recorded right after a complete model solve (driver / root-system / problem cases), that contain "
     "every independent variable whose value differs from the fresh default; tolerance 1e-9*(1+|v|) (solver tolerances are 1e-12); "
     "cases of a ScipyOptimizeDriver run are excluded from this clause (relevance pruning leaves irrelevant components stale by design), "
@@ -204,6 +206,12 @@ def _check(case, spec, res, om):
                 nontriv = True
                 res.classes.append('has-unit-converted-input')
             if not has_vec and not (full and not in_opt):
+                continue
+            src = conn.get(a, '')
+            if src.startswith('_auto_ivc.') and src in rec_out and not np.array_equal(np.ravel(rec_out[src]), np.ravel(want)):
+                # the case was recorded in an inconsistent state (set_val / stale irrelevant component): an input and the
+                # auto_ivc output that feeds it are ONE variable for load_case, both recorded values cannot be restored
+                res.classes.append('inconsistent-autoivc-pair')
                 continue
             got = np.asarray(p2.get_val(a, from_src=False))
             if has_vec:
